@@ -341,6 +341,37 @@ func checkC11(p *core.Program, r *core.Report) {
 			r.Check(extra == "", "R4", core.FuncName(rootFn(cs.Caller))+"/every-template-rewritten", p.Pos(cs.Pos()), "refactor.Template is called unconditionally", "whether a template is handed to refactor.Template depends on "+extra+": the rewriter matches references case-insensitively, a textual pre-filter does not, so a reference such as @Webhook is left unrenamed and resolves to something else after the migration")
 		}
 		r.Require("migration_rewrite_sites", nT, 1)
+		// ... and keeps what the rewriter returned: refactor.Template rewrites every expression it can parse and copies
+		// the others, returning the rewritten text together with the error — a caller that falls back to the original
+		// text when there is an error leaves the parseable references in that template unrenamed
+		for _, cs := range p.CallsToName("excellent/refactor.Template") {
+			if p.IsTestFile(cs.Pos()) || core.RelPkg(core.FuncPkgPath(cs.Caller)) != "flows/definition/migrations" {
+				continue
+			}
+			call, ok := cs.Instr.(*ssa.Call)
+			if !ok || cs.Caller.Signature.Results().Len() == 0 {
+				continue
+			}
+			if bt, ok := cs.Caller.Signature.Results().At(0).Type().Underlying().(*types.Basic); !ok || bt.Info()&types.IsString == 0 {
+				continue
+			}
+			bad := ""
+			for _, ret := range core.Returns(cs.Caller) {
+				if !core.Reachable(call.Block(), nil)[ret.Block()] && call.Block() != ret.Block() {
+					continue
+				}
+				from := false
+				for w := range core.BackSlice(ret.Results[0], nil) {
+					if ex, ok := w.(*ssa.Extract); ok && ex.Tuple == ssa.Value(call) && ex.Index == 0 {
+						from = true
+					}
+				}
+				if !from {
+					bad = p.Pos(ret.Pos())
+				}
+			}
+			r.Check(bad == "", "R4", core.FuncName(rootFn(cs.Caller))+"/rewritten-text-kept", p.Pos(cs.Pos()), "every return after the rewrite returns the rewritten text", "the return at "+bad+" gives back something other than what refactor.Template returned: when one expression of a template does not parse, the references in its other expressions are left unrenamed")
+		}
 	}
 	if nl := p.Method("excellent", "NumberLiteral", "String"); nl != nil {
 		ok := false
